@@ -23,6 +23,25 @@ def _mkscratch():
     return tempfile.mkdtemp(prefix="verif-", dir=base)
 
 
+_POOL_TIMEOUT_S = 3600    # a dead worker must not hang the driver for ever
+
+
+def _safe(fn):
+    """Pool workers must only raise picklable exceptions (a ConductorError with keyword-only
+    constructor arguments cannot be unpickled in the parent and would hang the pool)."""
+    import functools
+    import traceback
+
+    @functools.wraps(fn)
+    def wrapper(job):
+        try:
+            return fn(job)
+        except BaseException:
+            raise RuntimeError("harness worker %s crashed on job %r:\n%s"
+                               % (fn.__name__, job, traceback.format_exc())) from None
+    return wrapper
+
+
 # --------------------------------------------------------------------------- accumulator
 def _size(inp):
     text = json.dumps(inp, default=str, sort_keys=True)
@@ -192,6 +211,7 @@ def _build_chunks(kind, spec):
     return chunks
 
 
+@_safe
 def _tee_worker(job):
     shard, n_shards, tier = job
     import conductor.utils.tee as teemod
@@ -327,17 +347,23 @@ def _output_handler():
             tee = FakeTee(log, boom)
             ctx = types.SimpleNamespace(tee_processor=tee)
             handler = OutputHandler(path, rtype)
-            args = [handler.popen_arg() for _ in range(n_popen)]
             pipe, stream = object(), object()
             problem = None
-            if do_tee:
-                handler.maybe_tee(pipe if rtype == RecordType.Teed else None, stream, ctx)
             raised = None
-            for _ in range(n_finish):
-                try:
-                    handler.finish()
-                except ValueError as ex:
-                    raised = ex
+            args = []
+            try:
+                args = [handler.popen_arg() for _ in range(n_popen)]
+                if do_tee:
+                    handler.maybe_tee(pipe if rtype == RecordType.Teed else None, stream, ctx)
+                for _ in range(n_finish):
+                    try:
+                        handler.finish()
+                    except ValueError as ex:
+                        raised = ex
+            except Exception as ex:
+                a.fail("no_exception", "output-handler-raises", inp, "normal return",
+                       "%s: %s" % (type(ex).__name__, str(ex).replace(scratch, "<scratch>")))
+                continue
             if rtype == RecordType.NotRecorded:
                 if any(x is not None for x in args):
                     problem = ("popen_arg", "not-recorded-but-redirected", None, args)
@@ -438,7 +464,7 @@ def _finish_execution():
             ctx = types.SimpleNamespace(version_index=Index(), output_path=pathlib.Path(scratch, "p%d" % n, "cond-out"))
             op = rte.RunTaskExecutable(
                 initial_state=OperationState.QUEUED, identifier=ident, task=None, run="true",
-                args=RunArguments.from_raw(ident, list(raw_args)), options=RunOptions.from_raw(ident, dict(raw_opts)),
+                args=RunArguments(list(raw_args)), options=RunOptions(dict(raw_opts)),
                 working_path=pathlib.Path(scratch, "p%d" % n, "x"), output_path=out, deps_output_paths=[],
                 record_output=True, version_to_record=version, serialize_args_options=serialize,
                 parallelizable=False)
@@ -541,6 +567,7 @@ def _flat(v):
     return [v]
 
 
+@_safe
 def _misc_worker(kind):
     t0 = time.time()
     if kind == "handler":
@@ -558,10 +585,10 @@ def run(tier, seed):
         t0 = time.time()
         misc_job = pool.map_async(_misc_worker, ["handler", "finish"], chunksize=1)
         tee_job = pool.map_async(_tee_worker, [(i, n_shards, tier) for i in range(n_shards)], chunksize=1)
-        for acc in tee_job.get():
+        for acc in tee_job.get(_POOL_TIMEOUT_S):
             tee.merge(acc)
         wall_tee = time.time() - t0
-        misc = {kind: (acc, wall) for kind, acc, wall in misc_job.get()}
+        misc = {kind: (acc, wall) for kind, acc, wall in misc_job.get(_POOL_TIMEOUT_S)}
     js, rec = misc["finish"][0]
     max_len = 4 if tier == "quick" else 6
     finish_scope = ("3 args lists x 3 options dicts x serialize flag x version_to_record {none, with commit + dirty, "
